@@ -14,11 +14,11 @@ FormDefs == [Fm1 |-> [m |-> <<2, 0, 0, 2, 10, 10>>, own |-> TRUE, xo |-> <<>>,
              Fm2 |-> [m |-> Ident, own |-> FALSE, xo |-> <<>>,
                       body |-> <<N(0), N(1), N(0), Op("rg"), N(2), Op("w"), Op("q"), Op("BT"), Nm("F1"), N(20), Op("Tf"), N(2), Op("Tc"),
                                  Str(<<66, 65>>), Op("Tj"), Op("ET"), N(1), N(1), Op("m"), N(4), N(1), Op("l"), Op("S")>>],
-             \* nesting and name scoping: Fm3 has its own resources in which the NAME Fm1 means another form (Fm4), and Fm2
-             \* is not visible at all; Fm4 has no resources of its own, so inside it Fm1 still means Fm4's sibling entry
-             Fm3 |-> [m |-> <<1, 0, 0, 1, 5, 0>>, own |-> TRUE, xo |-> [Fm1 |-> "Fm4"],
+             \* nesting and name scoping: Fm3 has its own resources in which the NAME Fm1 means another form (Fm4), its own
+             \* name Fm3 means Fm4 too (not a recursion: names are local to a resource dictionary), and Fm2 is not visible; Fm4 has no resources of its own, so inside it Fm1 still means Fm4's sibling entry
+             Fm3 |-> [m |-> <<1, 0, 0, 1, 5, 0>>, own |-> TRUE, xo |-> [Fm1 |-> "Fm4", Fm3 |-> "Fm4"],
                       body |-> <<Op("BT"), Nm("F1"), N(10), Op("Tf"), Str(<<66>>), Op("Tj"), Op("ET"), Nm("Fm1"), Op("Do"),
-                                 Nm("Fm2"), Op("Do"), Op("BT"), Nm("F1"), N(10), Op("Tf"), Str(<<65>>), Op("Tj"), Op("ET")>>],
+                                 Nm("Fm3"), Op("Do"), Nm("Fm2"), Op("Do"), Op("BT"), Nm("F1"), N(10), Op("Tf"), Str(<<65>>), Op("Tj"), Op("ET")>>],
              Fm4 |-> [m |-> <<1, 0, 0, 1, 0, 7>>, own |-> FALSE, xo |-> <<>>,
                       body |-> <<N(1), N(0), N(0), Op("rg"), Op("BT"), Nm("F1"), N(10), Op("Tf"), Str(<<65, 66>>), Op("Tj"), Op("ET")>>]]
 PageXODef == [Fm1 |-> "Fm1", Fm2 |-> "Fm2", Fm3 |-> "Fm3"]
